@@ -81,7 +81,7 @@ class _AttemptsLoop(RangeLoop):
 
 @unit(
     "retry.create_retry",
-    props=["C10"],
+    props=["C10", "C06", "C09"],      # C06 / C09: a call or store operation that failed on every attempt is never reported as having succeeded
     functions=[(REL, "create_retry"), (REL, "create_retry.<locals>.inner_retry"), (REL, "create_retry.<locals>.inner_retry.<locals>.wrapper"), (REL, "identity")],
     assumptions=["T7 user call functions do not touch uberjob internals", "T9 functools.wraps is transparent",
                  "precondition: attempts is an int (assert_is_instance is not under contract)"],
@@ -93,6 +93,12 @@ def retry_unit(ctx):
 
     class ETsub(ET):
         pass
+
+    class FalsyET(ET):
+        """an exception instance that is falsy (an aggregate error carrying zero item failures): its truth value must never be consulted"""
+
+        def __len__(self):
+            return 0
 
     class Other(Exception):
         pass
@@ -112,12 +118,12 @@ def retry_unit(ctx):
                                           and kwargs["k"] is KV), props=["C10"])
         ctx.check("f/no-call-after-success", bool(g.last is None or g.last[0] != "ret"), props=["C10"])
         g.calls = g.calls + 1
-        o = ctx.choose(4, "f")
+        o = ctx.choose(5, "f")
         if o == 0:
             r = object()
             g.last = ("ret", r)
             return r
-        e = (ETsub, Other, OnlyBase)[o - 1]()
+        e = (ETsub, Other, OnlyBase, FalsyET)[o - 1]()
         g.last = ("raise", e)
         raise e
 
@@ -165,13 +171,14 @@ def retry_unit(ctx):
     return "returns"
 
 
-@unit("retry.invocations-are-independent", props=["C10"], functions=[(REL, "create_retry"), (REL, "create_retry.<locals>.inner_retry"), (REL, "create_retry.<locals>.inner_retry.<locals>.wrapper")],
+@unit("retry.invocations-are-independent", props=["C10", "C06", "C09"], functions=[(REL, "create_retry"), (REL, "create_retry.<locals>.inner_retry"), (REL, "create_retry.<locals>.inner_retry.<locals>.wrapper")],
       assumptions=["concrete attempts = 3; the loop runs natively"], min_obligations=2, kind="concrete-parametric")
 def retry_stateless_unit(ctx):
     """the attempt budget is per INVOCATION of the wrapped function, not per decorated function or per decorator: after an invocation that used up
     failures, the next invocation of the same wrapper (and of another function wrapped by the same decorator) again gets all its attempts"""
     class ET(Exception):
-        pass
+        def __len__(self):      # a FALSY exception (zero item failures): whoever asks "was there an exception?" by truth value loses it
+            return 0
 
     env = {"wraps": functools.wraps, "assert_is_instance": lambda *a, **k: None}
     get(REL, "identity").compile_into(env)
